@@ -20,7 +20,7 @@ for p in props:
             "engine": m["engine"],
             "level_claimed": {"category": m["level"], "text": m["text"], "design_ref": m["design_ref"]},
             "level_note": m["note"],
-            "technique": m["technique"],
+            "technique": m.get("technique_override") or m["technique"],
         })
 na = [{"property_id": p, "reason": plans.NOT_APPLICABLE.get(p, "check not built yet in this round; see DESIGN.md section 3 for the planned specification")}
       for p in props if p not in plans.PLANS]
